@@ -228,6 +228,16 @@ type Finding struct {
 // broken instead of raising an alarm (DESIGN §2.5).
 func (r *Report) Case(desc interface{}, nontrivialKey string, run func() []Finding) {
 	r.Eval(nontrivialKey)
+	// Crash protocol (DESIGN §6a): a panic in a goroutine spawned by the code under test, or a runtime
+	// fatal error, kills this process. The case being run is published first; the driver classifies the
+	// crash, records it for this case and restarts the shard, which then skips the case and reports the
+	// recorded violation instead.
+	ck := Hash(CanonJSON(desc))
+	if c, ok := crashed()[ck]; ok {
+		r.Violate(c.Key, c.Msg, desc)
+		return
+	}
+	publishCurrent(ck, desc)
 	f := run()
 	if len(f) == 0 {
 		return
@@ -249,6 +259,41 @@ func (r *Report) Case(desc interface{}, nontrivialKey string, run func() []Findi
 	}
 	for _, x := range f {
 		r.Violate(x.Key, x.Msg, desc)
+	}
+}
+
+type crashRec struct {
+	Case string `json:"case"`
+	Key  string `json:"key"`
+	Msg  string `json:"msg"`
+}
+
+var (
+	crashOnce sync.Once
+	crashMap  map[string]crashRec
+)
+
+func crashed() map[string]crashRec {
+	crashOnce.Do(func() {
+		crashMap = map[string]crashRec{}
+		if out := os.Getenv("VERIF_OUT"); out != "" {
+			if b, err := os.ReadFile(out + ".crashes"); err == nil {
+				var l []crashRec
+				if json.Unmarshal(b, &l) == nil {
+					for _, c := range l {
+						crashMap[c.Case] = c
+					}
+				}
+			}
+		}
+	})
+	return crashMap
+}
+
+func publishCurrent(ck string, desc interface{}) {
+	if out := os.Getenv("VERIF_OUT"); out != "" {
+		b, _ := json.Marshal(map[string]interface{}{"case": ck, "desc": desc})
+		_ = os.WriteFile(out+".current", b, 0o644)
 	}
 }
 
